@@ -57,6 +57,23 @@ def drv_custom(keys, order, cs):
     return first, snapshot(e), out.blocks, out2.blocks, e, s
 
 
+def drv_seq(keys, seq):
+    """the middlewares applied one after the other on the same entry (in place): every application must do its job whatever
+    ran before; returns the snapshot after each step"""
+    e, s, lib = mk_lib(keys)
+    snaps = []
+    for name in seq:
+        if name == "alpha":
+            mw = SortFieldsAlphabeticallyMiddleware(True)
+        elif name == "custom":
+            mw = SortFieldsCustomMiddleware(order=("b", "a"), case_sensitive=True, allow_inplace_modification=True)
+        else:
+            mw = NormalizeFieldKeys(True)
+        lib = mw.transform(lib)
+        snaps.append(snapshot(e))
+    return snaps, e, s, lib.blocks
+
+
 def norm_oracle(keys):
     """lower-case, unique, last value wins, order of first occurrences"""
     res = []     # list of [lowerkey, value]
@@ -231,6 +248,61 @@ def task_custom(lens, olens, cs):
     return rec.result(worlds=len(worlds))
 
 
+def seq_conds(Mo, snaps, seq):
+    conds = []
+    for name, snap in zip(seq, snaps):
+        ks = [k for k, v in snap]
+        if name == "alpha":
+            for a, b in zip(ks, ks[1:]):
+                conds.append(Mo.lt_values(a, b, True))
+        elif name == "custom":
+            def rank(k):
+                return z3.If(b_z3(Mo.eq_simple(k, "b")), 0, z3.If(b_z3(Mo.eq_simple(k, "a")), 1, 2))
+            for a, b in zip(ks, ks[1:]):
+                conds.append(SBool(rank(a) <= rank(b)))
+        else:
+            for i, a in enumerate(ks):
+                conds.append(Mo.eq_simple(a, mk([c.map(str.lower) if not isinstance(c, str) else c.lower() for c in chars(a)])))
+                for b in ks[:i]:
+                    conds.append(b_not(Mo.eq_simple(a, b)))
+    return conds
+
+
+def replay_seq(keys, seq):
+    import logging
+    logging.disable(logging.CRITICAL)
+    try:
+        snaps, e, s, blocks = drv_seq(keys, seq)
+    except Exception as ex:  # noqa
+        return {"input": [keys, seq], "observed": f"raised {type(ex).__name__}: {ex}", "expected": "sorted / normalised after every step"}
+    for name, snap in zip(seq, snaps):
+        ks = [k for k, v in snap]
+        rank = {"b": 0, "a": 1}
+        ok = (ks == sorted(ks) if name == "alpha" else
+              all(rank.get(x, 2) <= rank.get(y, 2) for x, y in zip(ks, ks[1:])) if name == "custom" else
+              (all(k == k.lower() for k in ks) and len(set(ks)) == len(ks)))
+        if not ok:
+            return {"input": [keys, seq], "observed": {"after": name, "fields": snap}, "expected": f"{name} applied regardless of earlier steps"}
+    return None
+
+
+def task_seq(lens, seq):
+    eng = Engine()
+    rec = Recorder(eng)
+    keys = sym_keys(eng, lens)
+    Mo = eng.I.models
+    worlds = eng.run(drv_seq, [keys, seq])
+    for W in worlds:
+        rp = lambda m: replay_seq(eng.model_value(m, keys), seq)
+        if W.exc is not None:
+            rec.require(W, True, "no-exception", rp)
+            continue
+        snaps, e, s, blocks = W.result
+        good = len(blocks) == 2 and blocks[0] is e and blocks[1] is s
+        rec.require(W, b_not(b_and(good, b_all(seq_conds(Mo, snaps, seq)))), "every-application-does-its-job", rp)
+    return rec.result(worlds=len(worlds))
+
+
 def task_norm(lens):
     eng = Engine()
     rec = Recorder(eng)
@@ -273,6 +345,10 @@ def main():
                     for cs in (True, False):
                         chk.add_task(f"custom-{''.join(map(str, lens)) or 'none'}-o{''.join(map(str, olens)) or 'none'}-cs{int(cs)}",
                                      task_custom, lens=lens, olens=olens, cs=cs)
+    seqs = [s for s in itertools.product(("alpha", "custom", "norm"), repeat=3) if len(set(s)) >= 2] + [("alpha", "custom"), ("custom", "alpha"), ("norm", "alpha")]
+    chk.bounds["sequences"] = f"{len(seqs)} sequences of 2-3 applications (alphabetical, custom order (b, a), normalisation) on entries of 3 fields with 1-char symbolic keys"
+    for seq in seqs:
+        chk.add_task("seq-" + "-".join(seq), task_seq, lens=(1, 1, 1), seq=seq)
     chk.run()
 
 
